@@ -26,6 +26,11 @@ func init() {
 	if d := os.Getenv("GOVC_REPO"); d != "" {
 		repoDir = d
 	}
+	// GOVC_CONTRACTS: read contracts/ (and contracts/lib) from a scratch copy while drafting a contract, so that a
+	// check running at the same time keeps seeing the committed files. Never set by a registered command.
+	if d := os.Getenv("GOVC_CONTRACTS"); d != "" {
+		verifDir = d
+	}
 }
 
 func outDir() string {
